@@ -78,6 +78,11 @@ func genAll(r *rand.Rand, na *nameAlloc) segGen {
 			n = "**"
 			t = "{**}"
 		}
+	case 2:
+		if r.Intn(3) == 0 {
+			// a non-positive limit means "unlimited" (documented in the route package), at every position of a route
+			t = fmt.Sprintf("{%s: **, capture: %d}", n, -r.Intn(3))
+		}
 	}
 	return segGen{aSeg{K: "A", T: t, Binds: []string{n}, Cap: capn, Els: []aEl{{Ty: "bind", V: n, G: 1}}},
 		func(r *rand.Rand) []string {
@@ -313,8 +318,8 @@ func hostilePath(r *rand.Rand) string {
 	}
 }
 
-var hdrExprs = []hdrC{{"X-K", "v"}, {"X-K", "^w$"}, {"User-Agent", "Chrome"}, {"X-Id", "[0-9]+"}, {"Cache-Control", ""}, {"X-K", "^(a|b)$"},
-	{"X-K", ""}, {"X-Id", "^[0-9]*$"}, {"Cache-Control", "^(no-cache)?$"}}
+var hdrExprs = []hdrC{{Name: "X-K", Expr: "v"}, {Name: "X-K", Expr: "^w$"}, {Name: "User-Agent", Expr: "Chrome"}, {Name: "X-Id", Expr: "[0-9]+"}, {Name: "Cache-Control", Expr: ""}, {Name: "X-K", Expr: "^(a|b)$"},
+	{Name: "X-K", Expr: ""}, {Name: "X-Id", Expr: "^[0-9]*$"}, {Name: "Cache-Control", Expr: "^(no-cache)?$"}}
 var hdrVals = map[string][]string{"X-K": {"", "v", "w", "vw", "a", "xvx"}, "User-Agent": {"", "Chrome/1", "Firefox"}, "X-Id": {"", "12", "ab"}, "Cache-Control": {"", "no-cache"}}
 
 func randReqHdr(r *rand.Rand) map[string]string {
@@ -478,10 +483,21 @@ func treeGen(seed int64, n int, args []string, out *json.Encoder) {
 					}
 					var hs []hdrC
 					seen := map[string]bool{}
-					for q := rng.Intn(3); q > 0; q-- {
+					for q := rng.Intn(4); q > 0; q-- {
 						hc := hdrExprs[rng.Intn(len(hdrExprs))]
 						if !seen[hc.Name] {
 							seen[hc.Name] = true
+							hs = append(hs, hc)
+						} else if !seen["2:"+hc.Name] {
+							// the SAME header constrained a second time under another spelling of its name: two constraints,
+							// both must hold (the first is pinned to the canonical spelling, this one to lower case)
+							seen["2:"+hc.Name] = true
+							for i := range hs {
+								if hs[i].Name == hc.Name {
+									hs[i].Sp = 1
+								}
+							}
+							hc.Sp = 2
 							hs = append(hs, hc)
 						}
 					}
@@ -529,6 +545,14 @@ func treeGen(seed int64, n int, args []string, out *json.Encoder) {
 				raw := hostilePath(rng)
 				if rng.Intn(3) == 0 && len(rgs) > 0 {
 					raw = "/" + strings.Join(mutatePath(rng, rgs[rng.Intn(len(rgs))].instance(rng)), "/")
+				}
+				if rng.Intn(5) == 0 && len(rgs) > 0 {
+					// method and path that only TOGETHER spell a known method followed by an admitted path ("G" + "ET/a/b"):
+					// the method is unknown, whatever the path is
+					km := pick(rng, []string{"GET", "POST", "HEAD"})
+					cut := rng.Intn(len(km))
+					m = km[:cut]
+					raw = km[cut:] + "/" + strings.Join(rgs[rng.Intn(len(rgs))].instance(rng), "/")
 				}
 				rq := treeReq{M: m, Raw: encBytes(raw), H: randReqHdr(rng)}
 				if rng.Intn(3) == 0 && len(rgs) > 0 {
